@@ -57,6 +57,8 @@ let importer_cfg : string -> K.csv_cfg option = function
 let items_from_bytes (imp : string) (hex : string) : K.citem list option =
   let bytes = str_of_string (if hex = "-" then "" else unhex_plain hex) in
   if imp = "postfinance" then Some (K.csv_items_bom K.cfg_postfinance bytes)   (* utfbom.SkipOnly in front *)
+  else if imp = "supercard" then Some (K.csv_items_supercard bytes)   (* Model/CsvLatin1.v: ISO 8859-1 decoder in front,
+                                                                         FieldsPerRecord 2, 13, then -1 *)
   else match importer_cfg imp with
   | None -> None
   | Some cfg -> Some (K.csv_items cfg bytes)
@@ -185,7 +187,7 @@ let run (imp : string) (inp : string) (obs : string) : string * string =
          outcomes are counted in the evidence (input_distribution). *)
       "ok" in
   (* the records the importer model starts from are the records the csv model reads from the statement's bytes
-     (swisscard2, swisscard, cumulus, postfinance; every kind of case) *)
+     (swisscard2, swisscard, cumulus, postfinance, supercard; every kind of case; viac reads JSON: observed) *)
   let spec = match csv_records_verdict imp hex items with "" -> spec | v -> v in
   (* the observation of a panic carries Go's message; the model only says PANIC *)
   let model_line = if model = "PANIC" && cls = "PANIC" then base else model in
